@@ -4,6 +4,7 @@ package mc
 
 import (
 	"fmt"
+	abci "github.com/cometbft/cometbft/abci/types"
 	"math/big"
 	"strings"
 
@@ -411,6 +412,48 @@ func OracleC12() *Oracle {
 				out = append(out, Finding{Clause: "total_committed", Disc: "denom=" + denomClass(d) + ",mech=" + mech,
 					Detail: fmt.Sprintf("denom %s: TotalCommitted changed by %s but the accounts' committed amounts changed by %s (commits +%s, uncommits -%s) in op %s", d, dT, dS, inc, dec, t.Op.Name)})
 			}
+			// LOCK-UPS: what was still locked at THIS block's time may leave an account's committed balance only
+			// through a liquidation (forced close of an unhealthy leveraged-LP position: the module says so
+			// with its close_unhealthy_position event); never through the owner's own or any other route
+			now := t.W.RCtx().BlockTime().Unix()
+			liquidated := map[string]bool{}
+			evs := append([]abci.Event{}, t.Res.Res.Events...)
+			for _, r := range t.Res.Res.TxResults {
+				evs = append(evs, r.Events...)
+			}
+			for _, e := range evs {
+				if e.Type == "leveragelp/close_unhealthy_position" {
+					for _, a := range e.Attributes {
+						if a.Key == "id" {
+							liquidated[a.Value] = true
+						}
+					}
+				}
+			}
+			for d, accts := range pre.locks {
+				for a, ls := range accts {
+					still := math.ZeroInt()
+					for _, l := range ls {
+						if l.Unlock > now {
+							still = still.Add(l.Amt)
+						}
+					}
+					if !still.IsPositive() {
+						continue
+					}
+					Clauses.Inc("live_lock_over_transition")
+					left := geti(post.per[d], a)
+					if left.GTE(still) {
+						continue
+					}
+					if id, isPos := pre.posOf[a]; isPos && liquidated[fmt.Sprint(id)] {
+						Clauses.Inc("lock_overridden_by_liquidation")
+						continue
+					}
+					out = append(out, Finding{Clause: "locked_amount_left_without_liquidation", Disc: "denom=" + denomClass(d),
+						Detail: fmt.Sprintf("account %s had %s %s under a lock still running at this block's time, yet only %s remain committed after op %s and no liquidation of it happened in the block", a, still, d, left, t.Op.Name)})
+				}
+			}
 			return out
 		},
 	}
@@ -420,6 +463,15 @@ type c12snap struct {
 	total map[string]math.Int
 	sum   map[string]math.Int
 	per   map[string]map[string]math.Int // denom -> account -> committed
+	// lock-ups per denom -> account (amount, unlock time), and the leveraged-LP position (id) whose
+	// shares an account holds, if any
+	locks map[string]map[string][]c12lock
+	posOf map[string]uint64
+}
+
+type c12lock struct {
+	Amt    math.Int
+	Unlock int64
 }
 
 func geti(m map[string]math.Int, k string) math.Int {
@@ -438,6 +490,8 @@ func snapC12(w *World) *c12snap {
 	for _, c := range w.App.CommitmentKeeper.GetParams(ctx).TotalCommitted {
 		s.total[c.Denom] = c.Amount
 	}
+	s.locks = map[string]map[string][]c12lock{}
+	s.posOf = map[string]uint64{}
 	for _, cm := range w.App.CommitmentKeeper.GetAllCommitments(ctx) {
 		for _, ct := range cm.CommittedTokens {
 			s.sum[ct.Denom] = geti(s.sum, ct.Denom).Add(ct.Amount)
@@ -445,7 +499,16 @@ func snapC12(w *World) *c12snap {
 				s.per[ct.Denom] = map[string]math.Int{}
 			}
 			s.per[ct.Denom][cm.Creator] = geti(s.per[ct.Denom], cm.Creator).Add(ct.Amount)
+			for _, l := range ct.Lockups {
+				if s.locks[ct.Denom] == nil {
+					s.locks[ct.Denom] = map[string][]c12lock{}
+				}
+				s.locks[ct.Denom][cm.Creator] = append(s.locks[ct.Denom][cm.Creator], c12lock{l.Amount, int64(l.UnlockTimestamp)})
+			}
 		}
+	}
+	for _, ps := range w.App.LeveragelpKeeper.GetAllPositions(ctx) {
+		s.posOf[ps.GetPositionAddress().String()] = ps.Id
 	}
 	return s
 }
@@ -519,14 +582,37 @@ func pendingRewards(w *World, ctx sdk.Context) map[string]*big.Int {
 }
 
 type c13snap struct {
-	bal map[string]math.Int       // holder|pool -> committed shares
-	acc map[string]math.LegacyDec // pool|denom -> acc per share
+	bal     map[string]math.Int       // holder|pool -> committed shares
+	acc     map[string]math.LegacyDec // pool|denom -> acc per share
+	surplus map[string]math.Int       // see snapC13
 }
 
 func snapC13(w *World) *c13snap {
 	ctx := w.RCtx()
-	s := &c13snap{bal: map[string]math.Int{}, acc: map[string]math.LegacyDec{}}
+	s := &c13snap{bal: map[string]math.Int{}, acc: map[string]math.LegacyDec{}, surplus: map[string]math.Int{}}
 	k := w.App.MasterchefKeeper
+	// surplus per bank-backed denom: module balance - what running incentives still owe to future blocks
+	// - everything credited and unclaimed
+	{
+		h := ctx.BlockHeight()
+		promised := map[string]math.Int{}
+		for _, inc := range k.GetAllExternalIncentives(ctx) {
+			if h >= inc.ToBlock {
+				continue
+			}
+			from := inc.FromBlock
+			if h > from {
+				from = h
+			}
+			promised[inc.RewardDenom] = geti(promised, inc.RewardDenom).Add(inc.AmountPerBlock.MulRaw(inc.ToBlock - from))
+		}
+		for d, tot := range pendingRewards(w, ctx) {
+			if bankBacked(d) {
+				bal := w.App.BankKeeper.GetBalance(ctx, modAddr(mctypes.ModuleName), d).Amount
+				s.surplus[d] = bal.Sub(geti(promised, d)).Sub(math.NewIntFromBigInt(tot))
+			}
+		}
+	}
 	for _, pri := range k.GetAllPoolRewardInfos(ctx) {
 		s.acc[fmt.Sprintf("%d|%s", pri.PoolId, pri.RewardDenom)] = pri.PoolAccRewardPerShare
 	}
@@ -587,6 +673,21 @@ func OracleC13() *Oracle {
 			ctx := t.W.RCtx()
 			k := t.W.App.MasterchefKeeper
 			var out []Finding
+			// the SURPLUS of a reward denom (balance - promised to future blocks - credited) never goes down:
+			// a distribution moves promised or incoming funds into credit one for one (rounding stays in the
+			// surplus), a claim moves the same amount out of balance and out of credit. Paying a claimant more
+			// than it was credited, or crediting more than came in, shows here at once — long before the last
+			// claimant finds the module short.
+			for d, u0 := range pre.surplus {
+				u1, ok := post.surplus[d]
+				if !ok {
+					continue
+				}
+				Clauses.Inc("reward_surplus_monotone")
+				if u1.LT(u0.SubRaw(10)) {
+					out = append(out, Finding{Clause: "reward_surplus_decreased", Disc: "denom=" + d, Detail: fmt.Sprintf("%s: balance - promised - credited went %s -> %s in op %s (more was paid out or credited than the books allow)", d, u0, u1, t.Op.Name)})
+				}
+			}
 			for key, b := range post.bal {
 				if _, had := pre.bal[key]; had {
 					continue
